@@ -623,6 +623,28 @@ def main(ck):
         bt = cases[i] if isinstance(i, int) else i
         ck.nofail_detail = {"kind": "correspondence", "explanation": r["broken"][0][0], "in": bt["in"],
                             "implementation": {k: bt[k] for k in ("conderr", "scanerr", "ranges", "maybe", "marks", "mutated")}}
+    # ---- thorough tier: bounded-exhaustive enumeration of depth-3 condition trees over one record with 2 / 3 key columns
+    if ck.tier == "thorough" and n:
+        enum_info = {}
+        for nk in (2, 3):
+            rc, cse, out = run_harness(ck, binp, ["enum", str(nk)], timeout=3000)
+            if rc != 0 or not cse:
+                ck.broken.append("harness c20 enum %d failed rc=%d: %s" % (nk, rc, out[-300:]))
+                continue
+            re_ = classify(ck, cse, "e%d" % nk)
+            if re_ is None:
+                continue
+            enum_info[str(nk)] = {"conditions": len(cse), "verdicts": re_["verdicts"], "mismatch_counts": re_["mismatch_counts"],
+                                  "nontrivial": sum(1 for t in cse if t["nontrivial"]),
+                                  "record": {"types": cse[0]["in"]["types"], "rows": len(cse[0]["in"]["rows"]), "sizes": cse[0]["in"]["sizes"]}}
+            if (re_["rb"], re_["norm"]) != (r["rb"], r["norm"]) and not re_["broken"]:
+                pass   # an enumeration over one record may not contain a case that distinguishes the variants
+            for msg, i in re_["broken"][:2]:
+                ck.broken.append("[enum %d] %s" % (nk, msg))
+                if not getattr(ck, "nofail_detail", None):
+                    ck.nofail_detail = {"kind": "correspondence", "explanation": msg, "in": cse[i]["in"]}
+            allcases = allcases + cse
+        ck.cov["bounded_exhaustive"] = enum_info
     # ---- coverage
     hist = {"key_columns": {}, "types": {}, "ops": {}, "strategy": {"binary": 0, "exclusion": 0}, "with_nulls": 0,
             "cond_errors": {}, "scan_errors": {}, "fragments": {}, "tags": {}}
